@@ -330,7 +330,7 @@ pub fn run(ctx: &mut Ctx) {
         "protocol-invalid arguments (nil / all-ones UUID, zero or wrapping mapping length, undefined flags) are outside the claim and not generated".into(),
         "raw error code i32::MIN is excluded (not an errno; the application's handler is trusted code)".into(),
     ];
-    let n = ctx.tier.pick(6000u32, 120_000u32);
+    let n = ctx.tier.pick(6000u32, 1_200_000u32);
     let strat = (any::<bool>(), any::<bool>(), proptest::collection::vec(req_strategy(), 1..=16)).prop_map(|(reply_ack, handler_ack_only, reqs)| Hist { reply_ack, handler_ack_only, reqs });
     ctx.prop_check("histories", n, strat, |ctx, h| run_hist(ctx, h));
 }
